@@ -184,6 +184,9 @@ var hostileZone = time.FixedZone("Z\"\\\tq", 5*3600+1800)
 // NormalTime is the non-zero entry time used by the enumeration.
 var NormalTime = time.Date(2023, 11, 14, 22, 13, 20, 123456789, hostileZone)
 
+// PreEpochTime is before 1970, on a whole second, in UTC.
+var PreEpochTime = time.Date(1960, 1, 2, 3, 4, 5, 0, time.UTC)
+
 var levelNames = map[zapcore.Level]string{-1: "debug", 0: "info", 1: "warn", 2: "error", 3: "dpanic", 4: "panic", 5: "fatal"}
 var levelColors = map[zapcore.Level]int{-1: 35, 0: 34, 1: 33, 2: 31, 3: 31, 4: 31, 5: 31}
 
@@ -365,6 +368,11 @@ func EntVariants(levels []zapcore.Level) []Ent {
 				}
 			}
 		}
+		// a pre-epoch instant on a whole second in UTC (negative epoch values, no fraction, zone "UTC") and an empty message
+		out = append(out,
+			Ent{Level: l, Time: PreEpochTime, Name: "n", Caller: HostileCaller, Message: "pre-epoch"},
+			Ent{Level: l, Time: PreEpochTime, Message: ""},
+			Ent{Level: l, Time: NormalTime, Name: "n", Caller: HostileCaller, Stack: "s", Message: ""})
 	}
 	return out
 }
